@@ -42,8 +42,15 @@ def make_world(log, placement):
         def pt(self) -> float: ...
         def eta(self) -> float: ...
         def Tracks(self) -> Iterable[Track]: ...
+        def attr(self, name: str) -> float: ...
+
+    def fix_arg(a):
+        # a rewrite that REPLACES an existing positional argument (repaired defect: it was lost
+        # when the call site sat inside a nested lambda)
+        return ast.Call(a.func, [ast.Constant(a.args[0].value + "_fixed")] + a.args[1:], a.keywords)
     if "method" in placement:
         Jet.pt = func_adl_callback(mk_cb("Jet.pt-method", rename("pt_calib")))(Jet.pt)
+        Jet.attr = func_adl_callback(mk_cb("Jet.attr-method", fix_arg))(Jet.attr)
     if "class" in placement:
         Jet = func_adl_callback(mk_cb("Jet-class"))(Jet)
 
@@ -94,6 +101,11 @@ QUERIES = [
     ("Where", "lambda e: e.Jets().Where(filter=lambda j: MySqrt(j.eta()) > 1).Count() > 0"),
     ("Select", "lambda e: 1"),
     ("Select", "lambda e: e.other.pt()"),
+    # a callback that replaces an existing argument, at the top and inside nested lambdas
+    ("Select", "lambda e: e.lead().attr('x')"),
+    ("Select", "lambda e: e.Jets().Select(lambda j: j.attr('x'))"),
+    ("Where", "lambda e: e.Jets().Where(lambda j: j.attr('x') > j.pt()).Count() > 0"),
+    ("Select", "lambda e: e.Jets().Select(lambda j: j.Tracks().Select(lambda t: j.attr('x') + t.pt()))"),
 ]
 
 
@@ -208,7 +220,7 @@ def expected_sites(src, placement):
     callback (if registered) then the method callback (if registered)."""
     tree = ast.parse(src).body[0].value
     types = {}       # crude type follower of the MODEL (independent of the library): by method name
-    ret = {"met": None, "lead": "Jet", "Jets": "Jet*", "Tracks": "Track*", "pt": None, "eta": None,
+    ret = {"attr": None, "met": None, "lead": "Jet", "Jets": "Jet*", "Tracks": "Track*", "pt": None, "eta": None,
            "mass": None, "Select": "same", "Where": "same", "Count": None, "First": "elem"}
     sites = []
 
@@ -219,14 +231,14 @@ def expected_sites(src, placement):
             recv = ty(n.func.value, env)
             m = n.func.attr
             if recv in ("Event", "Jet", "Track"):
-                owner = {"Event": ["met", "lead", "Jets"], "Jet": ["pt", "eta", "Tracks", "mass"],
+                owner = {"Event": ["met", "lead", "Jets"], "Jet": ["pt", "eta", "Tracks", "mass", "attr"],
                          "Track": ["pt"]}[recv]
                 if m in owner:
                     for a in n.args:
                         ty(a, env)
                     if "class" in placement and recv in ("Event", "Jet"):
                         sites.append(f"{recv}-class")
-                    if "method" in placement and (recv, m) in (("Jet", "pt"), ("Track", "pt")):
+                    if "method" in placement and (recv, m) in (("Jet", "pt"), ("Track", "pt"), ("Jet", "attr")):
                         sites.append(f"{recv}.{m}-method")
                     return ret[m]
                 return None
@@ -334,6 +346,12 @@ def run(t):
                     t.violation("process_method_callbacks:ensures the returned call node is emitted",
                                 "rewrite returned by the method callback is not in the query", key,
                                 "…pt_calib()…", text, rp)
+            if "Jet.attr-method" in exp:
+                t.contract("returned rewrite of an existing argument is emitted")
+                if "attr('x')" in text or "attr('x_fixed')" not in text:
+                    t.violation("process_method_callbacks:ensures the returned call node is emitted",
+                                "the argument replaced by the method callback is not in the query",
+                                key, "…attr('x_fixed')…", text, rp)
             if "param" in exp:
                 t.contract("[param] subscript removed, parameters passed by value")
                 if "getAttr[" in text:
